@@ -144,7 +144,12 @@ func WriteTime(w io.Writer, buf encoding.Bufferer, t time.Time) (n int64, err er
 	if t.IsZero() {
 		m, err = w.Write(make([]byte, 16))
 	} else {
-		m, err = w.Write(EncodeTime(t))
+		b := EncodeTime(t)
+		if len(b) != 16 {
+			// the seconds do not fit the ten characters the fixed-size field has for them
+			return 0, fmt.Errorf("time %d is out of range of the 16-byte time field", t.Unix())
+		}
+		m, err = w.Write(b)
 	}
 	if err != nil {
 		return 0, err
